@@ -134,3 +134,46 @@ func (e elemIn) elem() field.Element { return alpha.ElemFromLimbs(e.L) }
 func (e elemIn) value() *big.Int     { return ref.FRed(alpha.LimbValue(e.L)) }
 
 func inOf(e *field.Element) elemIn { return elemIn{alpha.LimbsOf(e)} }
+
+// targetedDeltas: field values a comparison that ignores part of its operands
+// would treat as zero: every single bit, and the limb-corner patterns.
+func targetedDeltas() []*big.Int {
+	var out []*big.Int
+	for k := uint(0); k < 255; k++ {
+		out = append(out, new(big.Int).Lsh(big.NewInt(1), k))
+	}
+	for i := 0; i < latticeSize(3); i++ {
+		if v := ref.FRed(alpha.LimbValue(latticeAt(3, i))); v.Sign() != 0 {
+			out = append(out, v)
+		}
+	}
+	for _, k := range []uint{32, 64, 83, 96, 128, 134, 160, 185, 192, 224, 236} {
+		out = append(out, new(big.Int).Lsh(big.NewInt(0xffff), k))
+	}
+	return out
+}
+
+// sqrtRatioTargets returns u such that, with v = 1, the quantity SQRT_RATIO_M1
+// compares against u (which is +-u or +-sqrt(-1)*u) differs from one of its
+// comparison partners by exactly a targeted delta: u = delta / (s - t) for the
+// unit pairs s != t in {1, -1, i, -i}.
+func sqrtRatioTargets() []*big.Int {
+	i := ref.SqrtM1
+	units := []*big.Int{big.NewInt(1), ref.FNeg(big.NewInt(1)), i, ref.FNeg(i)}
+	var out []*big.Int
+	for _, d := range targetedDeltas() {
+		for a := 0; a < 4; a++ {
+			for b := 0; b < 4; b++ {
+				if a == b {
+					continue
+				}
+				den := ref.FSub(units[a], units[b])
+				if den.Sign() == 0 {
+					continue
+				}
+				out = append(out, ref.FDiv(d, den))
+			}
+		}
+	}
+	return out
+}
